@@ -249,3 +249,19 @@ def line_end_near_vertex(case, tag, event):
     return False
 
 KNOWN_CLASSES["line_end_near_vertex"] = line_end_near_vertex
+
+def subnormal_query(case, tag, event):
+    """an interpolation query (nnw / bary) with a non-zero coordinate of magnitude below MIN_ALLOWED_VALUE = 2^-142 (a value that
+    insert rejects as TooSmall, but that locate / get_weights accept without validation)"""
+    if tag not in ("interp", "corr"):
+        return False
+    for op in case.ops:
+        t = op.split()
+        if t[0] in ("nnw", "bary") and len(t) >= 3:
+            for tok in t[1:3]:
+                x = gen.from_bits(int(tok))
+                if x == x and 0.0 < abs(x) < 2.0 ** -142:
+                    return True
+    return False
+
+KNOWN_CLASSES["subnormal_query"] = subnormal_query
